@@ -849,6 +849,13 @@ theorem reentrant_structures_in_step (lru : Bool) (max : Nat) (hmax : 1 ≤ max)
   exact ⟨hi.sync.perm.symm, hi.sync.nr, hi.sync.nd, hi.sync.agree, hcfg.2.1 ▸ hi.cap, hcfg.2.1, hcfg.1, hi.soft_le,
     s, hs, h.d, h.sorted⟩
 
+/-- the copy stays independent under a re-entrant on_miss: a call on one cache of the world — whatever its
+    callback does to THAT cache meanwhile — changes no other cache (ring model and pointer-level model) -/
+theorem reentrant_copy_independent (P : List K → K → OmProg K V) (fuel : Nat) (i j : Nat) (op : Op K V) (hne : j ≠ i) :
+    (∀ (w : List (Cache K V)), j < w.length → (rwstep P fuel w (.on i op)).1[j]? = w[j]?) ∧
+    (∀ (w : List (HCache K V)), j < w.length → (rhwstep P fuel w (.on i op)).1[j]? = w[j]?) :=
+  ⟨fun w hj => rwstepG_others _ _ w i op j hj hne, fun w hj => rwstepG_others _ _ w i op j hj hne⟩
+
 /-- one public call with a re-entrant on_miss keeps the representation invariant (so: size bound, no
     duplicate link, dict = ring as mappings), at any depth, also when the callback raises half-way -/
 theorem reentrant_step_inv {c : Cache K V} (hi : Inv c) (P : List K → K → OmProg K V) (fuel : Nat) (op : Op K V) :
